@@ -1055,6 +1055,10 @@ func parse_process_expression(tokens []*Token, index int) (AstProcessExpression,
 	if err != nil {
 		return nil, index + fail_index, err
 	}
+	if fail_index < len(exprTokens) {
+		// the expression ended before its tokens did (a stray close parenthesis)
+		return nil, index + fail_index, NewParseError(exprTokens[fail_index], "Unexpected token. Expected the end of the expression.")
+	}
 	return expr, next_index, nil
 }
 
@@ -1143,7 +1147,7 @@ func getProcessExpressionTokens(tokens []*Token, index int) ([]*Token, int) {
 }
 
 func isProcessExprEnd(tokenType TokenType) bool {
-	return tokenType == SET || tokenType == THEN || tokenType == IF || tokenType == ELSE || tokenType == END || tokenType == DEBUG || tokenType == RETURN || tokenType == LOOP || tokenType == BREAK || tokenType == CONTINUE
+	return tokenType == EOF || tokenType == SET || tokenType == THEN || tokenType == IF || tokenType == ELSE || tokenType == END || tokenType == DEBUG || tokenType == RETURN || tokenType == LOOP || tokenType == BREAK || tokenType == CONTINUE
 }
 
 func isPrefixOp(tokenType TokenType) bool {
